@@ -446,8 +446,11 @@ def explore_defaults(ctx, real):
             if rng.random() < 0.5:
                 user['req0'] = 1          # names a parameter without a default
                 user['other'] = None      # names no parameter at all
-            cls = make_class([(k, None) for k, _ in defaults], user)
-            sig = [('req0', NODEF)] + [(k, None) for k, _ in defaults]
+            # the signature's own defaults differ from the overriding ones (None overriding a
+            # non-None default included)
+            sigd = [(k, rng.choice([None, 'unset', 7, True, 0.5])) for k, _ in defaults]
+            cls = make_class(sigd, user)
+            sig = [('req0', NODEF)] + sigd
         else:
             user = {}
             cls = make_class(defaults)
